@@ -65,10 +65,12 @@ def r33(ctx, res):
     # the selection is an if/elif chain, or a sequence of `if len(X) ...: return / raise` statements at body level:
     # either way the tests are evaluated in source order
     from ..astutil import unrolled_body
+    from .c15 import expand_guard as _eg
     chains = [x for x in unrolled_body(fj.node, fj.params) if isinstance(x, ast.If)]
     rows = []
     for c in chains:
         rws, els = if_chain(c)
+        rws = [(_eg(fj, t), b) for t, b in rws]  # a hoisted count (`num = len(cpg_set); if num > 1`) reads as the len() test
         if all("len(" in txt(t) for t, _ in rws):
             terminating = all(b and isinstance(b[-1], (ast.Return, ast.Raise)) for _, b in rws)
             if len(rws) >= 4 or terminating:
